@@ -126,7 +126,14 @@ def rhd_params(cfg, rundir, name="run.param"):
         T += ["  radiation time: %r s" % cfg["radiation_time"]]
     if cfg.get("diffuse"):
         T += ["  diffuse field: true"]
+    if cfg.get("turbulence"):
+        T += ["  turbulent forcing: true"]
     L += T
+    if cfg.get("turbulence"):
+        tb = cfg["turbulence"]
+        L += ["TurbulenceForcing:", "  minimum wave number: 1.", "  maximum wave number: 3.", "  peak forcing wave number: 2.",
+              "  concentration factor: 0.2", "  forcing power: %r m^2 s^-3" % tb.get("power", 1e6), "  time step: %r s" % tb["dt"],
+              "  starting time: 0. s", "  random seed: %d" % tb.get("seed", 42)]
     L += ["RestartManager:", "  path: " + cfg.get("restart_path", rundir),
           "  output interval: %r s" % cfg.get("dump_interval", 1e30),
           "  maximum number of backups: %d" % cfg.get("backups", 1)]
